@@ -122,8 +122,8 @@ def make_jobs(tier, seed):
     groups.append(("families_dfs", {"mode": "dfs", "dfs_budget": 60 if quick else 1500},
                    [fin(c) for c in fams]))
     small = [c for c in gen_configs.all_configs(2)] + rng.sample(gen_configs.all_configs(3), 40 if quick else 400)
-    groups.append(("small_dfs", {"mode": "dfs", "dfs_budget": 40 if quick else 400}, [fin(c) for c in small]))
-    groups.append(("small_dfs_watch", {"mode": "dfs", "dfs_budget": 60 if quick else 600, "max_changes": 1, "max_steps": 60},
+    groups.append(("small_dfs", {"mode": "dfs", "dfs_budget": 40 if quick else 150}, [fin(c) for c in small]))
+    groups.append(("small_dfs_watch", {"mode": "dfs", "dfs_budget": 60 if quick else 300, "max_changes": 1, "max_steps": 60},
                    [fin(dict(c, watch=True), inherit=True) for c in rng.sample(small, 20 if quick else 120)]))
     # held phases of incremental::run: termination, failures, edits and messages land between check, script and record
     def gated(c, watch):
